@@ -23,10 +23,10 @@ ASSUMPTIONS = ["grammar: (C-)?[A-Z]{3}_[A-Za-z0-9]+-N(_N(_[STPI](-N)+)?)? with N
 
 GRAMMAR = re.compile(r"(C-)?([A-Z]{3})_([A-Za-z0-9]+)-([1-9][0-9]*)(?:_([1-9][0-9]*)(?:_([STPI])((?:-[1-9][0-9]*)+))?)?\Z")
 MAPS = ["Test", "A9", "US101", "a", "x9Y0"]
-MAP_IDS = [1, 2, 10, 33]
-CONFS = [None, 1, 2, 10]
+MAP_IDS = [1, 2, 10, 33, 1000]      # 1000, 300, 999: beyond the small-integer cache (value equality, not identity)
+CONFS = [None, 1, 2, 10, 300]
 BEHS = [None, "S", "T", "P", "I"]
-PREDS = [None, 1, 3, [1, 2], [2, 10, 3]]
+PREDS = [None, 1, 3, 999, [1, 2], [2, 10, 3]]
 VERS = ["2020a", "2018b"]
 QUICK_COUNTRIES = ["ZAM", "DEU", "USA", "CHN", "AUS"]
 
